@@ -431,6 +431,55 @@ def blame(trace, rej_info):
     return "C04"
 
 
+
+# ---------------------------------------------------------------- unbounded argument (Apalache, extra - never the verdict)
+def apalache_inductive(v):
+    """IndInv of specs/InterleavedInd.tla is inductive for EVERY geometry (N, B, drop unit in Nat with GeomOK) and any
+    number of epochs, and implies the C06 checkpoint equations and the C04 counter relations; a mutated AfterUpdate
+    (sample_at_last_update restarting at 0) must break inductiveness."""
+    import shutil
+    import subprocess
+    import tempfile
+    out = tempfile.mkdtemp(prefix="apa", dir=tlc.WORK)
+    obligations = [
+        ("base: Init => IndInv", ["--init=IndInit", "--inv=IndInv", "--length=0"], True),
+        ("step: IndInv /\\ Next => IndInv'", ["--init=IndStart", "--inv=IndInv", "--length=1"], True),
+        ("IndInv => Checkpoint (C06)", ["--init=IndStart", "--inv=Checkpoint", "--length=0"], True),
+        ("IndInv => Relations (C04)", ["--init=IndStart", "--inv=Relations", "--length=0"], True),
+        ("negative control: step with sAtLast' = 0 must fail", ["--init=IndStart", "--inv=IndInv", "--length=1",
+                                                                 "--next=NextMut"], False),
+    ]
+    from concurrent.futures import ThreadPoolExecutor
+
+    def one(ob):
+        name, args, expect_ok = ob
+        sub = tempfile.mkdtemp(prefix="o", dir=out)
+        try:
+            p = subprocess.run(["apalache-mc", "check", "--cinit=ConstInit", *args, f"--out-dir={sub}",
+                                "InterleavedIndMC.tla"], cwd=tlc.SPECS, stdout=subprocess.PIPE,
+                               stderr=subprocess.STDOUT, text=True, timeout=600)
+        except subprocess.TimeoutExpired:
+            return dict(obligation=name, outcome="timeout")
+        ok = "EXITCODE: OK" in p.stdout
+        err = "The outcome is: Error" in p.stdout
+        if not ok and not err:
+            raise tlc.TLCError(f"apalache failed on '{name}':\n{p.stdout[-1500:]}")
+        if ok != expect_ok:
+            raise tlc.TLCError(f"apalache: obligation '{name}' gave {'NoError' if ok else 'Error'} - the inductive "
+                               f"invariant of InterleavedInd.tla no longer does what the evidence claims")
+        return dict(obligation=name, outcome="NoError" if ok else "Error")
+
+    try:
+        with ThreadPoolExecutor(max_workers=5) as ex:
+            res = list(ex.map(one, obligations))
+    finally:
+        shutil.rmtree(out, ignore_errors=True)
+    v.coverage["apalache_inductive"] = dict(module="InterleavedInd.tla", geometry="N, B, drop unit in Nat (GeomOK)",
+                                            epochs="unbounded", results=res)
+    v.notes.append("Apalache 0.58 (extra, not the verdict): IndInv inductive for every geometry and any number of epochs; "
+                   "implies Checkpoint (C06) and Relations (C04); mutated AfterUpdate rejected")
+
+
 def run(prop, tier, seed):
     core.use_repo()
     v = core.Verdict(prop, tier, seed)
@@ -447,6 +496,9 @@ def run(prop, tier, seed):
     for act in ("PStart", "PAnnounce", "PEmitMain", "PCloseUpdate", "PEmitSide", "PAfterUpdate", "Configure"):
         if res.coverage.get(act, (0, 0))[1] == 0:
             raise tlc.TLCError(f"vacuity: action {act} never taken in {mc_cfg}")
+
+    if prop in ("C04", "C06") and not quick:
+        apalache_inductive(v)
 
     # ---- (T) traces from the real code
     traces, meta, twin_of = [], {}, {}
